@@ -224,3 +224,38 @@ pub fn wide_short_strategy(fix: fn(Cfg) -> Cfg, default_cfg: bool) -> BoxedStrat
         })
         .boxed()
 }
+
+/// "Class families": an optional common prefix, several one-letter continuations (which grex merges
+/// into a character class, possibly inside an optional part) and a few longer continuations that
+/// start with some of the same letters and share a suffix. This is the structure in which class
+/// building, optional parts and suffix factoring interact.
+pub fn class_family_strategy(default_cfg: bool, fix: fn(Cfg) -> Cfg) -> BoxedStrategy<Case> {
+    use proptest::collection::vec;
+    (
+        proptest::sample::select(vec!["", "", "x", "b"]),
+        any::<bool>(),
+        1u8..32,
+        vec((0u8..5, vec(0u8..5, 0..=2usize), proptest::sample::select(vec!["b", "", "cb", "a"])), 1..=4),
+        cfg_strategy(),
+    )
+        .prop_map(move |(p, with_prefix, singles, longs, cfg)| {
+            let alpha = ['a', 'b', 'c', 'd', 'e'];
+            let mut tcs: Vec<String> = vec![];
+            if with_prefix && !p.is_empty() {
+                tcs.push(p.to_string());
+            }
+            for (i, l) in alpha.iter().enumerate() {
+                if singles >> i & 1 == 1 {
+                    tcs.push(format!("{}{}", p, l));
+                }
+            }
+            for (first, mid, suf) in &longs {
+                let m: String = mid.iter().map(|&i| alpha[i as usize]).collect();
+                tcs.push(format!("{}{}{}{}", p, alpha[*first as usize], m, suf));
+            }
+            let mut c = Case::new(tcs, if default_cfg { Cfg::default() } else { fix(cfg) });
+            c.extra = json!({"pool": "class-family"});
+            c
+        })
+        .boxed()
+}
